@@ -222,7 +222,30 @@ def cases(rng, tier):
     out += [{"gen": "spherify_vertices", "ints": [n], "bools": []} for n in (0, 1)]
     for c in out:
         c["geo"] = _geo(rng)
-    return out
+        if rng.random() < 0.25: _integer_rep(c)
+    # documented defaults, after the generator was used with other values
+    dflt = [{"gen": "sphere_uv", "ints": [a, b], "bools": []} for a, b in ((1, 3), (3, 4), (4, 7))]
+    dflt += [{"gen": "icosphere", "ints": [n], "bools": []} for n in (0, 1)]
+    dflt += [{"gen": "icosahedron", "ints": [], "bools": []}]
+    dflt += [{"gen": "torus", "ints": [a, b], "bools": [t]} for (a, b) in ((3, 3), (5, 4)) for t in B]
+    dflt += [{"gen": "cylinder", "ints": [n], "bools": [t]} for n in (3, 6) for t in B]
+    for c in dflt:
+        c["geo"] = _geo(rng); c["defaults"] = True
+        c["geo"].update(center=[0., 0., 0.], radius=(0.3 if c["gen"] == "torus" else 1.0))
+        if c["gen"] == "torus": c["geo"]["R"] = 1.0
+    return out + dflt
+
+
+def _integer_rep(c):
+    """the same parameters in another numeric representation: centres, corner points and end points with INTEGER coordinates
+    (an integer-dtype Vec), integer radius and defect, resolutions as numpy.int64. Positions must not be truncated."""
+    g = c["geo"]
+    g["center"] = [int(round(x)) for x in g["center"]]
+    g["P"] = [[int(round(x)) + (i if k == 0 else 0) for k, x in enumerate(p)] for i, p in enumerate(g["P"])]
+    g["radius"] = int(max(1, round(g["radius"])))
+    g["defect"] = int(g["defect"])
+    c["rep"] = "int"
+    return c
 
 
 def model_request(case):
@@ -241,10 +264,36 @@ def _run(case):
     import numpy as np
     P = M.procedural
     g, I, Bo, geo = case["gen"], case["ints"], case["bools"], case["geo"]
-    V = lambda p: M.Vec(*p)
+    if case.get("rep") == "int": I = [np.int64(i) for i in I]
+    held = []                      # Vec arguments handed to the generator: the caller's vectors must come back unchanged
+
+    def V(p):
+        v = M.Vec(*p); held.append((v, np.array(v, copy=True))); return v
+    try:
+        return _run_gen(case, M, np, P, g, I, Bo, geo, V)
+    finally:
+        _LAST["args_changed"] = any(a.dtype != b.dtype or a.shape != b.shape or not np.array_equal(np.asarray(a), b) for a, b in held)
+
+
+_LAST = {"args_changed": False}
+
+
+def _run_gen(case, M, np, P, g, I, Bo, geo, V):
+    if case.get("defaults"):
+        # the documented defaults (centre = origin, radius = 1, torus radii 1 / 0.3, cylinder radius 1): the generator is first
+        # used with other values, then called with the arguments left out; geo holds the documented default values
+        other = V([3, -2, 5])
+        if g == "sphere_uv": P.sphere_uv(I[0], I[1], other, 2.5); return P.sphere_uv(I[0], I[1])
+        if g == "icosphere": P.icosphere(I[0], other, 2.5); return P.icosphere(I[0])
+        if g == "icosahedron": P.icosahedron(other, 2.5); return P.icosahedron()
+        if g == "torus": P.torus(I[0], I[1], 3., 0.5, triangulate=Bo[0]); return P.torus(I[0], I[1], triangulate=Bo[0])
+        if g == "cylinder":
+            P.cylinder(other, other + M.Vec(1., 2., 2.), 2.5, I[0], fill_caps=Bo[0])
+            return P.cylinder(V(geo["P"][0]), V(geo["P"][0]) + M.Vec(1., 2., 2.), N=I[0], fill_caps=Bo[0])
+        raise ValueError(g)
     if g == "unit_grid": return P.unit_grid(I[0], I[1], triangulate=Bo[0], generate_uvs=Bo[1])
     if g == "unit_triangle": return P.unit_triangle(I[0], I[1], generate_uvs=Bo[0])
-    if g == "torus": return P.torus(I[0], I[1], 4 * geo["radius"], geo["radius"], triangulate=Bo[0])
+    if g == "torus": return P.torus(I[0], I[1], geo.get("R", 4 * geo["radius"]), geo["radius"], triangulate=Bo[0])
     if g == "sphere_uv": return P.sphere_uv(I[0], I[1], V(geo["center"]), geo["radius"])
     if g == "cylinder": return P.cylinder(V(geo["P"][0]), V(geo["P"][0]) + M.Vec(1., 2., 2.), geo["radius"], I[0], fill_caps=Bo[0])
     if g == "ring": return P.ring(I[0], geo["defect"], Bo[0], I[1])
@@ -386,6 +435,8 @@ def oracle(case):
     except Exception as e:  # noqa
         bad("raises", f"generator raised {type(e).__name__} on admissible parameters", str(e)[:200])
         return out
+    if _LAST["args_changed"]:
+        bad("argument-changed", "a Vec handed to the generator (centre / corner / end point) was modified by the call")
     kind = type(m).__name__
     nV = len(m.vertices)
     pts = np.array([[float(c) for c in v] for v in m.vertices]) if nV else np.zeros((0, 3))
@@ -456,7 +507,7 @@ def oracle(case):
         phi = (1 + math.sqrt(5)) / 2
         if np.max(np.abs(d - r * math.sqrt(1 + phi * phi))) > tol * max(1, r): bad("on-sphere", "vertices are not equidistant from the centre at the scaled radius")
     if g == "torus":
-        R = 4 * r
+        R = geo.get("R", 4 * r)
         d = (np.sqrt(pts[:, 0] ** 2 + pts[:, 1] ** 2) - R) ** 2 + pts[:, 2] ** 2
         if np.max(np.abs(np.sqrt(d) - r)) > tol * max(1, R): bad("on-torus", "vertices are not on the torus of the given radii")
     if g == "cylinder":
@@ -525,12 +576,14 @@ def classify(case, obs):
     ks = ["gen:" + case["gen"]]
     if case["gen"] in MODELLED and not case.get("volume"): ks.append("modelled")
     if len(case["ints"]) == 2 and case["ints"][0] != case["ints"][1]: ks.append("unequal-resolutions")
+    if case.get("defaults"): ks.append("documented-defaults-after-other-values")
+    ks.append("representation:" + ("integer coordinates, numpy.int64 resolutions" if case.get("rep") == "int" else "floats, Python ints"))
     if str(obs).startswith("err"): ks.append(str(obs))
     return ks
 
 
 def describe(case):
-    return {k: case[k] for k in ("gen", "ints", "bools") if k in case}
+    return {k: case[k] for k in ("gen", "ints", "bools", "defaults", "rep", "volume", "colored") if k in case}
 
 
 REQUIRED_THEOREMS = ["tetrahedron_closed_oriented", "icosahedron_closed_oriented", "hexahedron_quad_closed_oriented",
